@@ -3,6 +3,7 @@ package pgdump
 import (
 	"encoding/binary"
 	"fmt"
+	"math"
 )
 
 // IndexType represents the type of index
@@ -548,14 +549,18 @@ func parseHashMeta(page []byte) *HashMetaPage {
 	// Meta data starts after page header
 	data := page[headerSize:]
 	
+	// HashMetaPageData: magic@0 version@4 ntuples(float8)@8 ffactor@16 bsize@18 bmsize@20 bmshift@22
+	// maxbucket@24 highmask@28 lowmask@32
+	maxBucket := binary.LittleEndian.Uint32(data[24:28])
 	return &HashMetaPage{
 		Magic:      binary.LittleEndian.Uint32(data[0:4]),
 		Version:    binary.LittleEndian.Uint32(data[4:8]),
-		NumBuckets: binary.LittleEndian.Uint32(data[16:20]),
-		MaxBucket:  binary.LittleEndian.Uint32(data[8:12]),
-		HighMask:   binary.LittleEndian.Uint32(data[12:16]),
-		LowMask:    binary.LittleEndian.Uint32(data[20:24]),
-		FFactor:    binary.LittleEndian.Uint16(data[24:26]),
+		NumBuckets: maxBucket + 1,
+		MaxBucket:  maxBucket,
+		HighMask:   binary.LittleEndian.Uint32(data[28:32]),
+		LowMask:    binary.LittleEndian.Uint32(data[32:36]),
+		FFactor:    binary.LittleEndian.Uint16(data[16:18]),
+		NumTuples:  math.Float64frombits(binary.LittleEndian.Uint64(data[8:16])),
 	}
 }
 
